@@ -13,6 +13,8 @@ ENTRY_SUFFIX = (
 # Keys are the role form of a site (`rkey`): module | kind | operands with the private fields of crate-local structs rendered by
 # their type (`self.#usize`), public fields by name - so that renaming a private function or field does not orphan an entry.
 REVIEWED = {
+    'R-UNTRUSTED|bitar::chunk_index|index-const|p0.#Vec':
+        'a chunk location always has at least one offset: every add_chunk of the crates passes one, strip drops a location whose offsets ran out (R-STRIP)',
     'R-UNTRUSTED|bitar::archive_reader::http_reader|Overflow(Add)|p0.offset,p0.size,->tmp':
         'offset + size of every descriptor is validated not to overflow when the archive is opened (try_init)',
     'R-UNTRUSTED|bitar::chunk_offset|Overflow(Add)|self.offset,self.size,->tmp':
